@@ -135,6 +135,7 @@ def run(ctx):
     ctx.add("traces_validated_against_impl", len(idx))
     ctx.add("dtype_pairing_runs", len(pair_tasks))
     sp.run_histories(ctx, rng, 16 if quick else 200, make_groups, 30, (), ("mom", "b1", "wd", "lr"), owns, "update_rule_long")
+    sp.run_repo_tests(ctx, owns, "update_rule_repo_tests")
     ctx.put("distinct_nontrivial", sp.nontrivial_count(tasks))
     ctx.put("rule", "MC: all mask histories x refresh schedules x hyper-schedule changes x 1-2 groups within the call bounds "
                     "(RefreshTiming, RefreshComplete, OncePerStep, StepCounter); R: TLC-simulated behaviours paired with random "
